@@ -1,6 +1,7 @@
 package c15
 
 import (
+	"archive/tar"
 	"bytes"
 	"compress/bzip2"
 	"compress/gzip"
@@ -14,6 +15,7 @@ import (
 	"os"
 	"path/filepath"
 	"sort"
+	"strconv"
 	"strings"
 	"time"
 
@@ -33,6 +35,7 @@ import (
 	"github.com/quay/claircore/ubuntu"
 	"github.com/quay/claircore/updater/osv"
 	"github.com/quay/claircore/verifharness/internal/hx"
+	"github.com/quay/claircore/verifharness/internal/registry"
 )
 
 // The pipeline layer runs the updaters end to end the way driveUpdater does —
@@ -46,6 +49,13 @@ import (
 type body struct {
 	data []byte
 	term error
+	// script, if set, is served instead of data/term: status, framing,
+	// declared length, read boundaries and terminal as a correct HTTP/1.1
+	// client delivers them (registry.Transport)
+	script *registry.Response
+	// reader, if set, is the body itself (read boundaries and terminal error
+	// are the reader's)
+	reader func() io.Reader
 }
 
 type route func(req *http.Request) (status int, hdr map[string]string, b body, ok bool)
@@ -75,7 +85,25 @@ func client(routes ...route) *http.Client {
 				for k, v := range hdr {
 					h.Set(k, v)
 				}
+				if st == 200 && notModified(req, h) {
+					return &http.Response{StatusCode: 304, Status: "304 Not Modified", Proto: "HTTP/1.1", ProtoMajor: 1, ProtoMinor: 1,
+						Header: h, Body: io.NopCloser(bytes.NewReader(nil)), ContentLength: 0, Request: req}, nil
+				}
+				if b.script != nil && req.Method != http.MethodHead {
+					sc := b.script.Clone()
+					for k, v := range hdr {
+						if sc.Header.Get(k) == "" {
+							sc.Header.Set(k, v)
+						}
+					}
+					t := registry.NewTransport()
+					t.Set(req.URL.Path, sc)
+					return t.RoundTrip(req)
+				}
 				var rd io.Reader = bytes.NewReader(b.data)
+				if b.reader != nil {
+					rd = b.reader()
+				}
 				if req.Method == http.MethodHead {
 					rd = bytes.NewReader(nil)
 				} else if b.term != nil {
@@ -88,6 +116,37 @@ func client(routes ...route) *http.Client {
 		return &http.Response{StatusCode: 404, Status: "404 Not Found", Proto: "HTTP/1.1", ProtoMajor: 1, ProtoMinor: 1,
 			Header: http.Header{}, Body: io.NopCloser(bytes.NewReader(nil)), ContentLength: -1, Request: req}, nil
 	})}
+}
+
+// notModified is a server's answer to a conditional request: the validator
+// the client sent names the version being served.
+func notModified(req *http.Request, h http.Header) bool {
+	if v := req.Header.Get("If-None-Match"); v != "" && v == h.Get("etag") {
+		return true
+	}
+	if v := req.Header.Get("If-Modified-Since"); v != "" && v == h.Get("last-modified") {
+		return true
+	}
+	return false
+}
+
+// version is the version of the feed being served ("#version" among the
+// secondary downloads; default "1"): it names the validators of the responses
+// and the checksums in the metadata files.
+func version(aux map[string]body) string {
+	if b, ok := aux["#version"]; ok {
+		return string(b.data)
+	}
+	return "1"
+}
+
+func hdrFor(aux map[string]body) map[string]string {
+	v := version(aux)
+	sec := 5
+	if n, err := strconv.Atoi(v); err == nil {
+		sec = 4 + n
+	}
+	return map[string]string{"etag": `"e` + v + `"`, "last-modified": time.Date(2006, 1, 2, 15, 4, sec, 0, time.UTC).Format(http.TimeFormat)}
 }
 
 func suffix(sfx string, hdr map[string]string, b func() body) route {
@@ -120,7 +179,7 @@ func fetchParse(u driver.Updater) result {
 		defer rc.Close()
 	}
 	if err != nil {
-		return result{kind: "err"}
+		return result{kind: "err", fetchFailed: true}
 	}
 	if du, ok := u.(driver.DeltaUpdater); ok {
 		vs, del, err := du.DeltaParse(ctx, rc)
@@ -144,22 +203,77 @@ func fetchParseEnrichment(e driver.EnrichmentUpdater) result {
 		defer rc.Close()
 	}
 	if err != nil {
-		return result{kind: "err"}
+		return result{kind: "err", fetchFailed: true}
 	}
 	return enrichResult(e.ParseEnrichment(ctx, rc))
 }
 
-// A pipeline is one updater end to end with one damaged download.
+// A pipeline is one updater end to end: its primary download (the feed) and
+// its secondary downloads (mirror list, metadata, change lists), each of which
+// can be damaged in transit.
 type pipeline struct {
 	name    string
 	wrapper string
 	gen     func(rnd *hx.Rand, size int) []byte // the primary download (bytes in transit)
-	run     func(b body) result
 	valid   func(transit []byte) bool
 	fixed   [][]byte // fixed transit bodies (corpus) used instead of gen
 	// class is the target whose still-valid finding this pipeline shares
 	// (only the uncompressed downloads have one)
 	class string
+	// site gives the intact secondary downloads by name, derived from the
+	// intact primary download (nil: the pipeline has none)
+	site func(primary []byte) map[string][]byte
+	// routes serves the primary download b and the secondary downloads aux
+	// (every name of site must be present)
+	routes func(b body, aux map[string]body) []route
+	// mk makes the unconfigured updater over a client, and its configuration
+	mk func(c *http.Client) (driver.Updater, driver.ConfigUnmarshaler, error)
+	// plain is the text the modelled read loop consumes, for an intact primary
+	// download (nil: no model line for transfers of this pipeline)
+	plain func(transit []byte) []byte
+	// loop is the model's read loop over plain; stage says where the
+	// decompressor sits: "" (none) | "fetch" (Fetch decompresses into the
+	// spool) | "aws" (Fetch spools compressed bytes, Parse decompresses) |
+	// "inline" (Fetch decompresses and runs the loop itself: epss, cvss)
+	loop, stage string
+	// partValid says whether a damaged secondary download is by itself a
+	// valid file of its kind (then a success with other content is the
+	// pipeline's listed finding partClass)
+	partValid map[string]func([]byte) bool
+	partClass string
+}
+
+// intactAux is the map of undamaged secondary downloads.
+func (p *pipeline) intactAux(primary []byte) map[string]body {
+	if p.site == nil {
+		return nil
+	}
+	out := map[string]body{}
+	for k, v := range p.site(primary) {
+		out[k] = body{data: v}
+	}
+	return out
+}
+
+// runSite runs Fetch and Parse of a fresh updater over the given downloads.
+func (p *pipeline) runSite(b body, aux map[string]body) result {
+	c := client(p.routes(b, aux)...)
+	u, cfg, err := p.mk(c)
+	if err != nil {
+		return result{kind: "panic"}
+	}
+	if cf, ok := u.(driver.Configurable); ok {
+		if cfg == nil {
+			cfg = noConfig
+		}
+		if err := cf.Configure(bg, cfg, c); err != nil {
+			return result{kind: "panic"}
+		}
+	}
+	if e, ok := u.(driver.EnrichmentUpdater); ok {
+		return fetchParseEnrichment(e)
+	}
+	return fetchParse(u)
 }
 
 func decompressAll(kind string, b []byte) ([]byte, bool) {
@@ -220,60 +334,68 @@ func loadCorpus(dir, sfx string) [][]byte {
 	return out
 }
 
+var awsRepomd = []byte(`<?xml version="1.0" encoding="UTF-8"?><repomd xmlns="http://linux.duke.edu/metadata/repo"><revision>1</revision><data type="primary_db"><checksum type="sha256">p0</checksum><location href="repodata/primary.sqlite.bz2"/></data><data type="updateinfo"><checksum type="sha256">abc</checksum><location href="repodata/updateinfo.xml.gz"/><timestamp>1600000000</timestamp><size>10</size></data></repomd>` + "\n")
+
+var cvssMeta = []byte("lastModifiedDate:2021-06-16T03:08:30-04:00\r\nsize:10\r\nzipSize:10\r\ngzSize:10\r\nsha256:AB\r\n")
+
+var cvssOther = gz([]byte(`{"CVE_data_numberOfCVEs":"1","CVE_Items":[{"cve":{"CVE_data_meta":{"ID":"CVE-2003-0001"}},"impact":{"baseMetricV3":{"cvssV3":{"version":"3.1","vectorString":"CVSS:3.1/AV:N/AC:L/PR:N/UI:N/S:U/C:H/I:H/A:H","baseScore":9.8}}}}]}`))
+
 func pipelines(corpus string) []pipeline {
 	var ps []pipeline
-	one := func(sfx string, b body) []route {
-		return []route{suffix(sfx, map[string]string{"etag": `"e1"`, "last-modified": "Mon, 02 Jan 2006 15:04:05 GMT"}, func() body { return b })}
+	one := func(sfx string) func(b body, aux map[string]body) []route {
+		return func(b body, aux map[string]body) []route {
+			return []route{suffix(sfx, hdrFor(aux), func() body { return b })}
+		}
 	}
+	ident := func(b []byte) []byte { return b }
 
 	ps = append(ps, pipeline{name: "alpine", class: "alpine", gen: func(rnd *hx.Rand, n int) []byte { return genAlpine(rnd, n) }, valid: validAlpine,
-		run: func(b body) result {
-			return fetchParse(alpine.UpdaterForC15(client(one("main.json", b)...), "http://feeds.test/v3.10/main.json", 3, 10, "main"))
+		routes: one("main.json"), plain: ident, loop: "one-json-end",
+		mk: func(c *http.Client) (driver.Updater, driver.ConfigUnmarshaler, error) {
+			return alpine.UpdaterForC15(c, "http://feeds.test/v3.10/main.json", 3, 10, "main"), nil, nil
 		}})
 	ps = append(ps, pipeline{name: "debian", class: "debian", gen: func(rnd *hx.Rand, n int) []byte { return genDebian(rnd, n) }, valid: validDebian,
-		run: func(b body) result {
-			return fetchParse(debian.UpdaterForC15(client(one("json", b)...), "http://feeds.test/tracker/data/json", debianReleases))
+		routes: one("json"), plain: ident, loop: "one-json-end",
+		mk: func(c *http.Client) (driver.Updater, driver.ConfigUnmarshaler, error) {
+			return debian.UpdaterForC15(c, "http://feeds.test/tracker/data/json", debianReleases), nil, nil
 		}})
 	ps = append(ps, pipeline{name: "ubuntu-plain", class: "ubuntu", gen: func(rnd *hx.Rand, n int) []byte { return genOVAL(rnd, flavorUbuntu, n) }, valid: validOVAL,
-		run: func(b body) result {
-			return fetchParse(ubuntu.UpdaterForC15(client(one("oval.xml", b)...), "http://feeds.test/oval.xml", false, "focal", "20.04"))
+		routes: one("oval.xml"), plain: ident, loop: "one-xml",
+		mk: func(c *http.Client) (driver.Updater, driver.ConfigUnmarshaler, error) {
+			return ubuntu.UpdaterForC15(c, "http://feeds.test/oval.xml", false, "focal", "20.04"), nil, nil
 		}})
+	unz := func(kind string) func([]byte) []byte {
+		return func(b []byte) []byte { p, _ := decompressAll(kind, b); return p }
+	}
 	ps = append(ps, pipeline{name: "ubuntu-bzip2", wrapper: "bzip2", fixed: loadCorpus(corpus, ".ubuntu.xml.bz2"), valid: validWrapped("bzip2", validOVAL),
-		run: func(b body) result {
-			return fetchParse(ubuntu.UpdaterForC15(client(one("oval.xml.bz2", b)...), "http://feeds.test/oval.xml.bz2", true, "focal", "20.04"))
+		routes: one("oval.xml.bz2"), plain: unz("bzip2"), loop: "one-xml", stage: "fetch",
+		mk: func(c *http.Client) (driver.Updater, driver.ConfigUnmarshaler, error) {
+			return ubuntu.UpdaterForC15(c, "http://feeds.test/oval.xml.bz2", true, "focal", "20.04"), nil, nil
 		}})
 
 	// the three ovalutil.Fetcher users, each with the compressions it is used with
-	type ovalU interface {
-		driver.Updater
-		Configure(context.Context, driver.ConfigUnmarshaler, *http.Client) error
-	}
-	ovalPipe := func(name, kind string, fl ovalFlavor, mk func(uri, comp string) (ovalU, error), fixed [][]byte) pipeline {
+	ovalPipe := func(name, kind string, fl ovalFlavor, mk func(uri, comp string) (driver.Updater, error), fixed [][]byte) pipeline {
 		cname := map[string]string{"": "none", "gzip": "gzip", "bzip2": "bzip2", "zstd": "zstd"}[kind]
 		p := pipeline{name: name + "-" + cname, wrapper: kind, valid: validWrapped(kind, validOVAL), fixed: fixed,
-			run: func(b body) result {
+			routes: one("oval.xml"), plain: unz(kind), loop: "one-xml", stage: "fetch",
+			mk: func(c *http.Client) (driver.Updater, driver.ConfigUnmarshaler, error) {
 				u, err := mk("http://feeds.test/oval.xml", cname)
-				if err != nil {
-					return result{kind: "panic"}
-				}
-				if err := u.Configure(bg, noConfig, client(one("oval.xml", b)...)); err != nil {
-					return result{kind: "panic"}
-				}
-				return fetchParse(u)
+				return u, noConfig, err
 			}}
 		if kind == "" {
 			p.class = name
+			p.stage = ""
 		}
 		if fixed == nil {
 			p.gen = func(rnd *hx.Rand, n int) []byte { return compress(kind, genOVAL(rnd, fl, n)) }
 		}
 		return p
 	}
-	mkOracle := func(uri, comp string) (ovalU, error) { return oracle.NewUpdater(2021, oracle.WithURL(uri, comp)) }
-	mkSuse := func(uri, comp string) (ovalU, error) {
+	mkOracle := func(uri, comp string) (driver.Updater, error) { return oracle.NewUpdater(2021, oracle.WithURL(uri, comp)) }
+	mkSuse := func(uri, comp string) (driver.Updater, error) {
 		return suse.NewUpdater(&claircore.Distribution{Name: "SUSE Linux Enterprise Server", Version: "15", DID: "sles", VersionID: "15", PrettyName: "SUSE Linux Enterprise Server 15"}, suse.WithURL(uri, comp))
 	}
-	mkPhoton := func(uri, comp string) (ovalU, error) {
+	mkPhoton := func(uri, comp string) (driver.Updater, error) {
 		return photon.NewUpdater(photon.Photon3, photon.WithURL(uri, comp))
 	}
 	ps = append(ps, ovalPipe("oracle", "bzip2", flavorOracle, mkOracle, loadCorpus(corpus, ".oracle.xml.bz2")))
@@ -283,16 +405,24 @@ func pipelines(corpus string) []pipeline {
 	ps = append(ps, ovalPipe("photon", "", flavorPhoton, mkPhoton, nil))
 
 	// aws: mirror list, repomd.xml, then the gzip'd updateinfo
-	repomd := []byte(`<?xml version="1.0" encoding="UTF-8"?><repomd xmlns="http://linux.duke.edu/metadata/repo"><revision>1</revision><data type="updateinfo"><checksum type="sha256">abc</checksum><location href="repodata/updateinfo.xml.gz"/></data></repomd>`)
 	ps = append(ps, pipeline{name: "aws", wrapper: "gzip", gen: func(rnd *hx.Rand, n int) []byte { return gz(genAWS(rnd, n)) }, valid: validAWS,
-		run: func(b body) result {
-			c := client(
-				suffix("mirror.list", nil, func() body { return body{data: []byte("http://mirror.test/al1\n")} }),
-				suffix("repomd.xml", nil, func() body { return body{data: repomd} }),
-				suffix("updateinfo.xml.gz", nil, func() body { return b }))
-			u, _ := aws.NewUpdater(aws.AmazonLinux1)
-			u.Configure(bg, noConfig, c)
-			return fetchParse(u)
+		plain: unz("gzip"), loop: "one-xml-drain", stage: "aws",
+		site: func([]byte) map[string][]byte {
+			return map[string][]byte{"mirror.list": []byte("http://mirror.test/al1\nhttp://mirror2.test/al1\n"), "repomd.xml": awsRepomd}
+		},
+		routes: func(b body, aux map[string]body) []route {
+			return []route{
+				suffix("mirror.list", nil, func() body { return aux["mirror.list"] }),
+				suffix("repomd.xml", nil, func() body {
+					b := aux["repomd.xml"]
+					b.data = bytes.Replace(b.data, []byte(">abc<"), []byte(">abc"+version(aux)+"<"), 1)
+					return b
+				}),
+				suffix("updateinfo.xml.gz", nil, func() body { return b })}
+		},
+		mk: func(c *http.Client) (driver.Updater, driver.ConfigUnmarshaler, error) {
+			u, err := aws.NewUpdater(aws.AmazonLinux1)
+			return u, noConfig, err
 		}})
 
 	// osv: the ecosystem's all.zip
@@ -303,62 +433,99 @@ func pipelines(corpus string) []pipeline {
 		}
 		return genOSVInner(rnd, "Go", n, method)
 	}, valid: func(b []byte) bool { return validOSV(wrapOSVOuter("Go", b)) },
-		run: func(b body) result {
+		routes: one("all.zip"),
+		mk: func(c *http.Client) (driver.Updater, driver.ConfigUnmarshaler, error) {
 			uri, _ := url.Parse("http://osv.test/Go/all.zip")
-			return fetchParse(osv.UpdaterForC15(client(one("all.zip", b)...), uri, "Go"))
+			return osv.UpdaterForC15(c, uri, "Go"), nil, nil
 		}})
 
 	// epss: gzip'd CSV
 	ps = append(ps, pipeline{name: "epss", wrapper: "gzip", gen: func(rnd *hx.Rand, n int) []byte { return gz(genEPSSCSV(rnd, 2*n)) },
-		valid: validWrapped("gzip", validEPSSCSV),
-		run: func(b body) result {
-			e := &epss.Enricher{}
-			u := "http://epss.test/epss_scores-2024-10-25.csv.gz"
-			if err := e.Configure(bg, jsonConfig(map[string]string{"url": u}), client(one(".csv.gz", b)...)); err != nil {
-				return result{kind: "panic"}
-			}
-			return fetchParseEnrichment(e)
+		valid: validWrapped("gzip", validEPSSCSV), routes: one(".csv.gz"), plain: unz("gzip"), loop: "csv-epss", stage: "inline",
+		mk: func(c *http.Client) (driver.Updater, driver.ConfigUnmarshaler, error) {
+			return &epss.Enricher{}, jsonConfig(map[string]string{"url": "http://epss.test/epss_scores-2024-10-25.csv.gz"}), nil
 		}})
 
 	// cvss: one .meta and one .json.gz per year; the damaged download is the year 2002 file
 	ps = append(ps, pipeline{name: "cvss", wrapper: "gzip", gen: func(rnd *hx.Rand, n int) []byte { return gz(genNVD(rnd, 2002, 2*n)) },
-		valid: validWrapped("gzip", validNVD),
-		run: func(b body) result {
-			other := gz([]byte(`{"CVE_data_numberOfCVEs":"1","CVE_Items":[{"cve":{"CVE_data_meta":{"ID":"CVE-2003-0001"}},"impact":{"baseMetricV3":{"cvssV3":{"version":"3.1","vectorString":"CVSS:3.1/AV:N/AC:L/PR:N/UI:N/S:U/C:H/I:H/A:H","baseScore":9.8}}}}]}`))
-			meta := []byte("lastModifiedDate:2021-06-16T03:08:30-04:00\r\nsize:10\r\nzipSize:10\r\ngzSize:10\r\nsha256:AB\r\n")
-			c := client(
-				suffix(".meta", nil, func() body { return body{data: meta} }),
+		valid: validWrapped("gzip", validNVD), plain: unz("gzip"), loop: "one-json-drain", stage: "inline",
+		site: func([]byte) map[string][]byte { return map[string][]byte{"meta": cvssMeta, "other-year": cvssOther} },
+		routes: func(b body, aux map[string]body) []route {
+			return []route{
+				suffix("nvdcve-1.1-2003.meta", nil, func() body { return aux["meta"] }),
+				suffix(".meta", nil, func() body {
+					return body{data: bytes.Replace(cvssMeta, []byte("sha256:AB"), []byte("sha256:AB"+version(aux)), 1)}
+				}),
 				suffix("nvdcve-1.1-2002.json.gz", nil, func() body { return b }),
-				suffix(".json.gz", nil, func() body { return body{data: other} }))
-			e := &cvss.Enricher{}
+				suffix("nvdcve-1.1-2003.json.gz", nil, func() body { return aux["other-year"] }),
+				suffix(".json.gz", nil, func() body { return body{data: cvssOther} })}
+		},
+		mk: func(c *http.Client) (driver.Updater, driver.ConfigUnmarshaler, error) {
 			root := "http://nvd.test/feeds/"
-			if err := e.Configure(bg, jsonConfig(map[string]*string{"feed_root": &root}), c); err != nil {
-				return result{kind: "panic"}
-			}
-			return fetchParseEnrichment(e)
+			return &cvss.Enricher{}, jsonConfig(map[string]*string{"feed_root": &root}), nil
 		}})
 
-	// vex: archive_latest.txt, HEAD + GET of the tar.zst archive, empty changes/deletions
-	ps = append(ps, pipeline{name: "vex", wrapper: "tar.zst", gen: func(rnd *hx.Rand, n int) []byte { return genVEXArchive(rnd, n) },
-		valid: validVEXArchive,
-		run: func(b body) result {
-			lm := map[string]string{"last-modified": "Mon, 02 Jan 2006 15:04:05 GMT", "etag": `"a"`}
-			c := client(
-				suffix("archive_latest.txt", nil, func() body { return body{data: []byte("csaf_vex_2024-05-01.tar.zst")} }),
-				suffix("changes.csv", lm, func() body { return body{} }),
-				suffix("deletions.csv", lm, func() body { return body{} }),
-				suffix(".tar.zst", lm, func() body { return b }))
+	// vex: archive_latest.txt, HEAD + GET of the tar.zst archive, changes.csv
+	// (with one GET per changed advisory) and deletions.csv
+	ps = append(ps, pipeline{name: "vex", wrapper: "tar.zst", gen: func(rnd *hx.Rand, n int) []byte { return genVEXArchive(rnd, n+1) },
+		valid: validVEXArchive, site: vexSite,
+		partValid: map[string]func([]byte) bool{"changes.csv": validVEXCSV, "deletions.csv": validVEXCSV}, partClass: "still-valid-vex-csv",
+		routes: func(b body, aux map[string]body) []route {
+			rs := []route{
+				suffix("archive_latest.txt", nil, func() body { return aux["archive_latest.txt"] }),
+				suffix("changes.csv", hdrFor(aux), func() body { return aux["changes.csv"] }),
+				suffix("deletions.csv", hdrFor(aux), func() body { return aux["deletions.csv"] }),
+				suffix(".tar.zst", hdrFor(aux), func() body { return b })}
+			for name := range aux {
+				if strings.HasSuffix(name, ".json") {
+					name := name
+					rs = append(rs, suffix("/"+name, nil, func() body { return aux[name] }))
+				}
+			}
+			return rs
+		},
+		mk: func(c *http.Client) (driver.Updater, driver.ConfigUnmarshaler, error) {
+			// through the factory, as in production (it sets the archive timeout)
 			f := &vex.Factory{}
-			if err := f.Configure(bg, jsonConfig(map[string]string{"url": "http://vex.test/data/"}), c); err != nil {
-				return result{kind: "panic"}
+			cfg := jsonConfig(map[string]string{"url": "http://vex.test/data/"})
+			if err := f.Configure(bg, cfg, c); err != nil {
+				return nil, nil, err
 			}
 			us, err := f.UpdaterSet(bg)
 			if err != nil || len(us.Updaters()) != 1 {
-				return result{kind: "panic"}
+				return nil, nil, errors.New("vex factory")
 			}
-			return fetchParse(us.Updaters()[0])
+			return us.Updaters()[0], cfg, nil
 		}})
 	return ps
+}
+
+// vexSite derives the secondary downloads of the vex updater from the
+// archive: every second advisory (from the second) has changed since the
+// archive was made and is served in a newer version, every third (from the
+// third) has been deleted.
+func vexSite(archive []byte) map[string][]byte {
+	out := map[string][]byte{"archive_latest.txt": []byte("csaf_vex_2024-05-01.tar.zst")}
+	plain, _ := decompressAll("zstd", archive)
+	tr := tar.NewReader(bytes.NewReader(plain))
+	var changes, deletions bytes.Buffer
+	for i := 0; ; i++ {
+		h, err := tr.Next()
+		if err != nil {
+			break
+		}
+		b, _ := io.ReadAll(tr)
+		switch {
+		case i%3 == 2:
+			fmt.Fprintf(&deletions, "%q,%q\n", h.Name, "2024-05-02T10:00:00+00:00")
+		case i%2 == 1:
+			fmt.Fprintf(&changes, "%q,%q\n", h.Name, "2024-05-03T11:30:00+00:00")
+			out[h.Name] = bytes.Replace(b, []byte("A flaw was found"), []byte("An updated flaw was found"), 1)
+		}
+	}
+	out["changes.csv"] = changes.Bytes()
+	out["deletions.csv"] = deletions.Bytes()
+	return out
 }
 
 var errTransport = errors.New("c15: transport: connection reset")
@@ -366,7 +533,8 @@ var errTransport = errors.New("c15: transport: connection reset")
 // sweepPipeline applies cuts (clean close and transport error) and flips to
 // the download of one pipeline.
 func sweepPipeline(r *hx.Run, p *pipeline, transit []byte, idx int, rnd *hx.Rand, cfg hx.Config) {
-	intact := guard(func() result { return p.run(body{data: transit}) })
+	aux := p.intactAux(transit)
+	intact := guard(func() result { return p.runSite(body{data: transit}, aux) })
 	r.Count("pipe-feed:" + p.name)
 	if !intact.ok() {
 		r.Fail("", fmt.Sprintf("pipeline does not parse a valid download: pipeline=%s result=%s transit=%s", p.name, intact.kind, hx.Hex(transit)))
@@ -396,9 +564,9 @@ func sweepPipeline(r *hx.Run, p *pipeline, transit []byte, idx int, rnd *hx.Rand
 			ks = append(ks, k)
 		}
 	}
-	cuts := parMap(len(ks), func(i int) result { return guard(func() result { return p.run(body{data: transit[:ks[i]]}) }) })
+	cuts := parMap(len(ks), func(i int) result { return guard(func() result { return p.runSite(body{data: transit[:ks[i]]}, aux) }) })
 	cutsE := parMap(len(ks), func(i int) result {
-		return guard(func() result { return p.run(body{data: transit[:ks[i]], term: io.ErrUnexpectedEOF}) })
+		return guard(func() result { return p.runSite(body{data: transit[:ks[i]], term: io.ErrUnexpectedEOF}, aux) })
 	})
 	for i, k := range ks {
 		if r.Stop() {
@@ -425,7 +593,7 @@ func sweepPipeline(r *hx.Run, p *pipeline, transit []byte, idx int, rnd *hx.Rand
 			ds = append(ds, dmg{fmt.Sprintf("delete@%d+%d", k, n), deleted(transit, k, n)})
 		}
 	}
-	fl := parMap(len(ds), func(i int) result { return guard(func() result { return p.run(body{data: ds[i].data}) }) })
+	fl := parMap(len(ds), func(i int) result { return guard(func() result { return p.runSite(body{data: ds[i].data}, aux) }) })
 	for i, d := range ds {
 		if r.Stop() {
 			return
